@@ -775,3 +775,21 @@ Qed.
 Lemma names_orig_witness :
   final_names_orig [PI "arg0" false false; PI "_" false false] [] = ["arg0"; "arg0"].
 Proof. vm_compute. reflexivity. Qed.
+
+Lemma final_names_all ins outs :
+  let names := final_names ins outs in
+  List.length names = List.length (ins ++ outs)%list /\
+  NoDup names /\
+  (Forall user_valid (ins ++ outs)%list -> Forall valid_ident names) /\
+  kept [] (map user_name (ins ++ outs)%list) names.
+Proof.
+  exact (conj (final_names_length ins outs)
+        (conj (final_names_NoDup ins outs)
+        (conj (final_names_valid ins outs) (final_names_kept ins outs)))).
+Qed.
+
+Lemma names_orig_refuted : exists ins outs, ~ NoDup (final_names_orig ins outs).
+Proof.
+  exists [PI "arg0" false false; PI "_" false false], []. rewrite names_orig_witness.
+  intro H. inversion H as [|x l Hin _]; subst. apply Hin. left. reflexivity.
+Qed.
